@@ -164,7 +164,8 @@ theorem where_empty_indexed_counterexample :
 /-- rows 3,1 indexed by a, then 2,0 inserted: `_indexes` still says a -/
 def exStale : Table := { columns := [0], data := [(0, [.int 1, .int 3, .int 2, .int 0])], sel := .all, indexes := [0] }
 
-/-- P13 (in every tree): on rows that are not in index order the bisection answers wrongly -/
+/-- P13: on rows that are not in index order the bisection answers wrongly (whatever the tree: `where`
+trusts `_indexes`).  With the repaired `insert` no history reaches such a table: `inv_reachable`. -/
 theorem where_stale_index_counterexample :
     rowsOf (exStale.pwhere Cfg.fixed Option.none Option.none [(0, .val (.scalar (.int 0)))])
       = .ok [[.int 1], [.int 3], [.int 2], [.int 0]] ∧
@@ -172,22 +173,27 @@ theorem where_stale_index_counterexample :
       [condOf Option.none (0, .val (.scalar (.int 0)))] = .ok [[.int 0]] ∧
     whereWF Cfg.fixed exStale Option.none [(0, .val (.scalar (.int 0)))] = false := by decide +kernel
 
-/-- (in every tree) a probe that cannot be ordered against the cells raises `TypeError` on an
-indexed column while the plain evaluation of `=` finds no row -/
+/-- a probe that cannot be ordered against the cells raises `TypeError` on an indexed column while
+the plain evaluation of `=` finds no row; with `fixes/C17-where-incomparable-probe.diff` the
+`TypeError` of the bisection is caught and the scan answers -/
 theorem where_incomparable_probe_counterexample :
-    rowsOf (exT.pwhere Cfg.fixed Option.none Option.none [(0, .val (.scalar (.str [113])))]) = .error .typeError ∧
+    rowsOf (exT.pwhere Cfg.committed Option.none Option.none [(0, .val (.scalar (.str [113])))]) = .error .typeError ∧
     whereS { columns := [0, 1], rows := [[.int 1, .int 5], [.int 1, .int 6], [.int 2, .int 5], [.missing, .int 7]] }
       [condOf Option.none (0, .val (.scalar (.str [113])))] = .ok [] ∧
-    whereWF Cfg.fixed exT Option.none [(0, .val (.scalar (.str [113])))] = false := by decide +kernel
+    whereWF Cfg.committed exT Option.none [(0, .val (.scalar (.str [113])))] = false ∧
+    rowsOf (exT.pwhere Cfg.fixed Option.none Option.none [(0, .val (.scalar (.str [113])))]) = .ok [] := by decide +kernel
 
-/-- (in every tree) `None` as a probe of `!in` is taken for the sentinel: every row comes twice -/
+/-- `None` as a probe of `!in` is taken for the sentinel: every row comes twice; with
+`fixes/C17-notin-none-probe.diff` (a private sentinel) the answer is the plain one -/
 theorem where_none_probe_counterexample :
-    rowsOf (exT.pwhere Cfg.fixed Option.none (some .notin) [(0, .val (.coll [.none]))])
+    rowsOf (exT.pwhere Cfg.committed Option.none (some .notin) [(0, .val (.coll [.none]))])
       = .ok [[.int 1, .int 5], [.int 1, .int 6], [.int 2, .int 5], [.missing, .int 7],
              [.int 1, .int 5], [.int 1, .int 6], [.int 2, .int 5], [.missing, .int 7]] ∧
     whereS { columns := [0, 1], rows := [[.int 1, .int 5], [.int 1, .int 6], [.int 2, .int 5], [.missing, .int 7]] }
       [condOf (some .notin) (0, .val (.coll [.none]))] = .ok [[.int 1, .int 5], [.int 1, .int 6], [.int 2, .int 5]] ∧
-    whereWF Cfg.fixed exT (some .notin) [(0, .val (.coll [.none]))] = false := by decide +kernel
+    whereWF Cfg.committed exT (some .notin) [(0, .val (.coll [.none]))] = false ∧
+    rowsOf (exT.pwhere Cfg.fixed Option.none (some .notin) [(0, .val (.coll [.none]))])
+      = .ok [[.int 1, .int 5], [.int 1, .int 6], [.int 2, .int 5]] := by decide +kernel
 
 /-- (in every tree) `> Missing`: the scan says `Missing > Missing`, the bisection does not -/
 theorem where_missing_probe_counterexample :
@@ -346,55 +352,72 @@ theorem view_compose (t : Table) (N : Nat) (hok : t.OK N) (select : List Nat)
 
 /-! ## `insert` -/
 
-/-- **insert(rows)** on a table that owns its lists: afterwards the table shows the old rows followed
-by the inserted ones, unchanged; columns and `_indexes` are as before (which is exactly why
-insert-after-index leaves a table that claims an order it does not have: P13).
-(The dict and column-mapping shapes, which add and pad columns, are modelled and
-correspondence-checked but not covered by a theorem.) -/
+/-- **insert(rows)** on a table that owns its lists and has no index (or in a tree without the insert
+repair, where `_indexes` is simply kept - which is exactly why insert-after-index left a table that
+claimed an order it did not have: P13): afterwards the table shows the old rows followed by the
+inserted ones, unchanged.  For an indexed table in the repaired tree see `insert_eq_spec` and
+`insert_keeps_index_order`. -/
 theorem insert_rows (cfg : Cfg) (t : Table) (N : Nat) (hok : t.OK N) (hsel : t.sel = .all)
     (hnd : t.columns.Nodup) (hcne : t.columns ≠ []) (hkeys : ∀ p ∈ t.data, p.1 ∈ t.columns)
+    (hni : cfg.resortInsert = false ∨ t.indexes = [])
     (r : List Cell) (rs : List (List Cell)) (hlen : ∀ x ∈ r :: rs, x.length = t.columns.length)
     (R : List (List Cell)) (hR : t.rows = .ok R) :
     ∃ t', t.insert cfg (.rows (r :: rs)) = .ok t' ∧ t'.rows = .ok (R ++ (r :: rs)) ∧
       t'.columns = t.columns ∧ t'.indexes = t.indexes ∧ t'.OK (N + (r :: rs).length) :=
-  insert_rows_spec' cfg t N hok hsel hnd hcne hkeys r rs hlen R hR
+  insert_rows_plain' cfg t N hok hsel hnd hcne hkeys hni r rs hlen R hR
 
-/-- P13 in one line of evaluation: index, insert, and the table is `exStale` -/
+/-- index, then insert: what the table shows and what `_indexes` says -/
+def indexThenInsert (cfg : Cfg) : Except Err (List (List Cell)) × List Nat :=
+  match ({ columns := [0], data := [(0, [.int 3, .int 1])], sel := .all, indexes := [] } : Table).index cfg [0] with
+  | .ok t => (match t.insert cfg (.rows [[.int 2], [.int 0]]) with
+              | .ok t' => (t'.rows, t'.indexes)
+              | .error e => (.error e, []))
+  | .error e => (.error e, [])
+
+/-- P13 in one line of evaluation: index, insert, and the table is `exStale`; with
+`fixes/C17-insert-keeps-index-order.diff` the rows are in index order again -/
 theorem insert_after_index_counterexample :
-    (match ({ columns := [0], data := [(0, [.int 3, .int 1])], sel := .all, indexes := [] } : Table).index Cfg.fixed [0] with
-     | .ok t => (match t.insert Cfg.fixed (.rows [[.int 2], [.int 0]]) with
-                 | .ok t' => (t'.rows, t'.indexes)
-                 | .error e => (.error e, []))
-     | .error e => (.error e, [])) = (.ok [[.int 1], [.int 3], [.int 2], [.int 0]], [0]) := by decide +kernel
+    indexThenInsert Cfg.committed = (.ok [[.int 1], [.int 3], [.int 2], [.int 0]], [0]) ∧
+    indexThenInsert Cfg.fixed = (.ok [[.int 0], [.int 1], [.int 2], [.int 3]], [0]) := by decide +kernel
 
 /-! ## `insert` in all three shapes, and the refinement over histories -/
 
-/-- **insert = `insertS`** for rows, dict rows and a column mapping, under the decidable `insertWF`:
+/-- **insert = `insertSpec`** for rows, dict rows and a column mapping, under the decidable `insertWF`:
 the table owns its lists; rows are as long as the (distinct) columns; the value lists of a mapping
 are equally long; new columns are appended in sorted order, old rows padded with `Missing` there,
-new rows padded with `Missing` for the columns they do not mention. -/
+new rows padded with `Missing` for the columns they do not mention (`insertS`).  A table without
+index, or a tree without the insert repair: the rows afterwards are exactly `insertS` (last
+conjunct).  An indexed table in the repaired tree (`insertWF` then asks that it is in index order
+and that the cells of its index columns, new ones included, can be ordered and are not `None`): the
+rows afterwards are the stable sort of `insertS` by the index columns, up to `==` cell by cell, and
+the table is in index order (`Indexed`). -/
 theorem insert_eq_spec (cfg : Cfg) (t : Table) (d : InsertData) (hwf : insertWF cfg t d = true) :
-    ∃ t' R, t.rows = .ok R ∧ t.insert cfg d = .ok t' ∧ t'.columns = (insertS t.columns R d).1 ∧
-      t'.rows = .ok (insertS t.columns R d).2 ∧ t'.indexes = t.indexes :=
+    ∃ t' R R', t.rows = .ok R ∧ t.insert cfg d = .ok t' ∧ t'.columns = (insertSpec cfg t.columns t.indexes R d).1 ∧
+      t'.rows = .ok R' ∧ R'.map (List.map Cell.key) = (insertSpec cfg t.columns t.indexes R d).2.map (List.map Cell.key) ∧
+      t'.indexes = t.indexes ∧ InsertOK t' (tableN t + d.size) ∧
+      (cfg.resortInsert = true → t.indexes ≠ [] → Indexed t' (tableN t + d.size)) ∧
+      ((cfg.resortInsert = false ∨ t.indexes = []) → R' = (insertS t.columns R d).2) :=
   insert_eq_spec' cfg t d hwf
 
 /-- insert of a column mapping (first pair `q0`, all value lists as long as its list) -/
-theorem insert_mapping_rows (cfg : Cfg) (t : Table) (N : Nat) (h : InsertOK t N) (q0 : Nat × List Cell) (cs : List (Nat × List Cell))
+theorem insert_mapping_rows (cfg : Cfg) (t : Table) (N : Nat) (h : InsertOK t N)
+    (hni : cfg.resortInsert = false ∨ t.indexes = []) (q0 : Nat × List Cell) (cs : List (Nat × List Cell))
     (hk : ∀ q ∈ q0 :: cs, q.2.length = q0.2.length)
     (hcne : t.columns ++ newColsOf t.columns ((q0 :: cs).map (·.1)) ≠ [])
     (R : List (List Cell)) (hR : t.rows = .ok R) :
     ∃ t', t.insert cfg (.cols (q0 :: cs)) = .ok t' ∧ t'.columns = (insertColsS t.columns R (q0 :: cs) q0.2.length).1 ∧
       t'.rows = .ok (insertColsS t.columns R (q0 :: cs) q0.2.length).2 ∧ t'.indexes = t.indexes ∧ InsertOK t' (N + q0.2.length) :=
-  insert_mapping_rows' cfg t N h q0 cs hk hcne R hR
+  insert_mapping_plain' cfg t N h hni q0 cs hk hcne R hR
 
 /-- insert of a sequence of dict rows: every dict becomes one row (`d.get(k, Missing)`) -/
-theorem insert_dicts_rows (cfg : Cfg) (t : Table) (N : Nat) (h : InsertOK t N) (d0 : List (Nat × Cell)) (ds : List (List (Nat × Cell)))
+theorem insert_dicts_rows (cfg : Cfg) (t : Table) (N : Nat) (h : InsertOK t N)
+    (hni : cfg.resortInsert = false ∨ t.indexes = []) (d0 : List (Nat × Cell)) (ds : List (List (Nat × Cell)))
     (hpad : cfg.dictLen = true ∨ dictsToCols (d0 :: ds) ≠ [])
     (hcne : t.columns ++ newColsOf t.columns ((d0 :: ds).flatMap (fun d => d.map (·.1))) ≠ [])
     (R : List (List Cell)) (hR : t.rows = .ok R) :
     ∃ t', t.insert cfg (.dicts (d0 :: ds)) = .ok t' ∧ t'.columns = (insertDictsS t.columns R (d0 :: ds)).1 ∧
       t'.rows = .ok (insertDictsS t.columns R (d0 :: ds)).2 ∧ t'.indexes = t.indexes ∧ InsertOK t' (N + (d0 :: ds).length) :=
-  insert_dicts_rows' cfg t N h d0 ds hpad hcne R hR
+  insert_dicts_plain' cfg t N h hni d0 ds hpad hcne R hR
 
 /-- the pinned tree pads one row for any number of key-less dicts (`dat_len = 1 if not data`) -/
 theorem insert_empty_dicts_counterexample :
@@ -417,7 +440,7 @@ objects sharing storage (`copy_shares_storage_counterexample`), `groupby` (an ob
 `groupby_partition`), `match`. -/
 theorem ops_refine (cfg : Cfg) (ops : List LOp) (t : Table) (a : AbsT) (hwf : WFL cfg t ops = true)
     (hrel : AbsT.eqv t.abs a) :
-    ∃ t' a', runL cfg t ops = .ok t' ∧ runLS a ops = .ok a' ∧ AbsT.eqv t'.abs a' :=
+    ∃ t' a', runL cfg t ops = .ok t' ∧ runLS cfg a ops = .ok a' ∧ AbsT.eqv t'.abs a' :=
   ops_refine' cfg ops t a hwf hrel
 
 /-- the side conditions are satisfiable along a history with every kind of operation: a table
@@ -432,6 +455,70 @@ example : WFL Cfg.fixed (Init.columns []).table
      .copy,
      .whereP (.cell 0 (.eqv (.int 2)))] = true := by decide +kernel
 
+/-! ## The repaired `insert`: rows stay in index order, in every reachable state
+
+`Inv t`: the table is well-formed, its index columns are columns, and the rows it shows are in
+non-decreasing lexicographic order of the index columns, whose cells can be ordered and are not
+`None` (`Indexed`; nothing to ask of a table without index).  The side conditions `opOK` / `OKL`
+below speak about the data only - shapes, cells and probes that can be ordered, no `None`; unlike
+`opWF` / `WFL` they neither ask that the segments `_calc_lohis` finds are sorted runs nor that
+`index` names other columns than the current index. -/
+
+/-- a table without index satisfies the invariant (every freshly made table) -/
+theorem inv_init (t : Table) (hok : t.OK (tableN t)) (h : t.indexes = []) : Inv t :=
+  inv_of_no_index t hok h
+
+/-- **insert keeps the rows in index order** (`fixes/C17-insert-keeps-index-order.diff`): it looks at
+the rows from the last old one on; still in order, nothing happens; out of order, the table is
+sorted again (P13, P7 in `known/C17.json`) -/
+theorem insert_keeps_index_order (cfg : Cfg) (hfix : cfg.resortInsert = true) (t : Table) (d : InsertData)
+    (hinv : Inv t) (h : insertOK cfg t d = true) : ∃ t', t.insert cfg d = .ok t' ∧ Inv t' :=
+  inv_insert cfg hfix t d hinv h
+
+/-- **every operation keeps the invariant**: `insert` (any shape), `index`, `where` (keywords or row
+predicate; the result is a view), `copy` -/
+theorem inv_step (cfg : Cfg) (hfix : cfg.resortInsert = true) (t : Table) (op : LOp) (hinv : Inv t)
+    (hok : opOK cfg t op = true) : ∃ t', stepL cfg t op = .ok t' ∧ Inv t' :=
+  inv_step' cfg hfix t op hinv hok
+
+/-- **the invariant holds in every reachable state** -/
+theorem inv_reachable (cfg : Cfg) (hfix : cfg.resortInsert = true) (t0 : Table) (ops : List LOp) (hinv : Inv t0)
+    (hok : OKL cfg t0 ops = true) : ∃ t, runL cfg t0 ops = .ok t ∧ Inv t :=
+  inv_reachable' cfg hfix t0 ops hinv hok
+
+/-- **refinement over arbitrary histories, repaired tree**: as `ops_refine`, with the data-only side
+conditions `OKL` in place of `WFL`, from any table that satisfies the invariant; `index` by the
+current index columns is covered (the rows are in that order already) -/
+theorem ops_inv_refine (cfg : Cfg) (hfix : cfg.resortInsert = true) (ops : List LOp) (t : Table) (a : AbsT)
+    (hinv : Inv t) (hok : OKL cfg t ops = true) (hrel : AbsT.eqv t.abs a) :
+    ∃ t' a', runL cfg t ops = .ok t' ∧ runLS cfg a ops = .ok a' ∧ AbsT.eqv t'.abs a' ∧ Inv t' :=
+  ops_inv_refine' cfg hfix ops t a hinv hok hrel
+
+/-- **indexed query = full scan in every reachable state.**  `t` is whatever a history of inserts,
+index calls, wheres and copies made of a table `t0` that satisfies the invariant (e.g. a new table);
+a `where` with keywords on `t` returns exactly the rows the plain row-by-row evaluation keeps.
+There is no hypothesis about the state of the index: `whereOK` asks the column to exist, the argument
+to have the shape of its operator, probes of an indexed column to be orderable against its cells and
+each other and not `None` / (under an order comparison) `Missing`, distinct for `in` unless P8 is
+repaired, and `<=`/`>=` on an unindexed column not to meet `Missing` unless P11 is repaired. -/
+theorem where_reachable_eq_scan (cfg : Cfg) (hfix : cfg.resortInsert = true) (t0 : Table) (ops : List LOp) (hinv : Inv t0)
+    (hok : OKL cfg t0 ops = true) (t : Table) (hrun : runL cfg t0 ops = .ok t)
+    (pos : Option Op) (kws : List (Nat × Arg)) (R rs : List (List Cell)) (hw : whereOK cfg t pos kws = true)
+    (hR : t.rows = .ok R) (hspec : whereS { columns := t.columns, rows := R } (kws.map (condOf pos)) = .ok rs) :
+    ∃ t', t.pwhere cfg Option.none pos kws = .ok t' ∧ t'.rows = .ok rs ∧
+      t'.columns = t.columns ∧ t'.indexes = t.indexes :=
+  where_reachable' cfg hfix t0 ops hinv hok t hrun pos kws R rs hw hR hspec
+
+/-- the P13 history meets the data-only side conditions in the repaired tree (index, insert out of
+order, index by the same column again, where on the indexed column), and does not meet `WFL` in the
+committed tree -/
+example : OKL Cfg.fixed (Init.columns [0]).table
+    [.insert (.rows [[.int 3], [.int 1]]), .index [0], .insert (.rows [[.int 2], [.int 0]]), .index [0],
+     .whereK Option.none [(0, .val (.scalar (.int 0)))]] = true ∧
+  WFL Cfg.committed (Init.columns [0]).table
+    [.insert (.rows [[.int 3], [.int 1]]), .index [0], .insert (.rows [[.int 2], [.int 0]]),
+     .whereK Option.none [(0, .val (.scalar (.int 0)))]] = false := by decide +kernel
+
 /-! ## `match` -/
 
 /-- **match on a homogeneous column** (all cells strings, or all cells numbers; pattern a number or a
@@ -442,18 +529,27 @@ theorem where_match_eq_spec (cfg : Cfg) (col : List Cell) (arg : Cell) (harg : i
     compareScan cfg col .mtch (.scalar arg) = scanFilter 0 col (fun c => .ok (matchCell arg c)) :=
   where_match_eq_spec' cfg col arg harg hh hne
 
-/-- (every tree) a string column with a `Missing` cell (ragged insert): `match` raises `TypeError` -/
+/-- a string column with a `Missing` cell (ragged insert): `match` raises `TypeError`; not with
+`fixes/C17-match-per-cell.diff` -/
 theorem where_match_missing_counterexample :
-    compareScan Cfg.fixed [.str [120], .missing] .mtch (.scalar (.str [120])) = .error .typeError ∧
+    compareScan Cfg.committed [.str [120], .missing] .mtch (.scalar (.str [120])) = .error .typeError ∧
     scanFilter 0 [.str [120], .missing] (fun c => .ok (matchCell (.str [120]) c)) = .ok [0] ∧
-    homogB [.str [120], .missing] = false := by decide +kernel
+    homogB [.str [120], .missing] = false ∧
+    compareScan Cfg.fixed [.str [120], .missing] .mtch (.scalar (.str [120])) = .ok [0] := by decide +kernel
 
-/-- (every tree) the column's first cell decides how every cell is compared: with `Missing` first the
-cells are matched as `str(cell)`, and `str(Missing) = 'None'` contains the pattern `on` -/
+/-- the column's first cell decides how every cell is compared: with `Missing` first the cells are
+matched as `str(cell)`, and `str(Missing) = 'None'` contains the pattern `on`; not with
+`fixes/C17-match-per-cell.diff` -/
 theorem where_match_first_cell_counterexample :
-    compareScan Cfg.fixed [.missing, .str [111, 110]] .mtch (.scalar (.str [111, 110])) = .ok [0, 1] ∧
+    compareScan Cfg.committed [.missing, .str [111, 110]] .mtch (.scalar (.str [111, 110])) = .ok [0, 1] ∧
     scanFilter 0 [.missing, .str [111, 110]] (fun c => .ok (matchCell (.str [111, 110]) c)) = .ok [1] ∧
-    homogB [.missing, .str [111, 110]] = false := by decide +kernel
+    homogB [.missing, .str [111, 110]] = false ∧
+    compareScan Cfg.fixed [.missing, .str [111, 110]] .mtch (.scalar (.str [111, 110])) = .ok [1] := by decide +kernel
+
+/-- **match, repaired**: with the per-cell decision `match` is `matchCell` on every column, mixed or not -/
+theorem where_match_per_cell (cfg : Cfg) (hfix : cfg.matchPerCell = true) (col : List Cell) (arg : Cell) :
+    compareScan cfg col .mtch (.scalar arg) = scanFilter 0 col (fun c => .ok (matchCell arg c)) :=
+  where_match_per_cell' cfg hfix col arg
 
 /-- the hypotheses are satisfiable: `'x12y'` contains the number 12 between non-digits, `'121'` does not -/
 example : compareScan Cfg.unfixed [.str [120, 49, 50, 121], .str [49, 50, 49]] .mtch (.scalar (.int 12)) = .ok [0] := by
